@@ -110,6 +110,10 @@ def main(argv):
             if rc4 != 0:
                 ctx.broken.append(dict(kind="build-debug", what=out4[-1500:]))
 
+    if not any(b["kind"].startswith("build") for b in ctx.broken):
+        for d in vlib.crosscheck_tables():
+            ctx.broken.append(dict(kind="translator-crosscheck", what=d))
+
     # 4./5. correspondence and property oracle
     if not any(b["kind"].startswith("build") for b in ctx.broken):
         try:
